@@ -176,10 +176,12 @@ class RunB(object):
     def __init__(self, history, with_defaults=False):
         self.viol = []
         self.log = []
-        self.defaults = B_DEFAULTS if with_defaults else {}
+        self.defaults = B_DEFAULTS if with_defaults is True else {}
         with World() as w:
             impl = CfgImpl(w, [(n, B_INIT[n]) for n in B_OPTIONS], defaults=self.defaults)
             self.impl = impl
+            # 'echo': Tor announces this controller's own SETCONFs with CONF_CHANGED too (before the 250), as the real one does
+            impl.sim.echo_conf_changed = (with_defaults == 'echo')
             if impl.boot != ['ok']:
                 self.viol.append(('bootstrap-failed', 'partB', '%r' % (impl.boot,)))
                 self.key = ('x',)
@@ -396,6 +398,7 @@ def tasks(tier, seed):
     for i in range(len(events_B())):
         out.append(('B', i, False))
         out.append(('B', i, True))
+        out.append(('B', i, 'echo'))
     return out
 
 
@@ -433,7 +436,7 @@ def run_task(param, acc):
     else:
         evs = events_B()
         wd = param[2]
-        depth = (3 if acc.tier == 'quick' else 4) - (1 if wd else 0)
+        depth = (3 if acc.tier == 'quick' else 4) - (1 if wd is True else 0)
         first = evs[param[1]]
         seen = set()
         r0 = RunB((first,), wd)
@@ -478,7 +481,7 @@ def recB(acc, hist, r, wd=False):
     oc = tuple(sorted(set(v[0] for v in r.viol))) or ('ok',)
     acc.execution(key=(hist, wd), outcome='/'.join(oc), nontrivial=len(hist) >= 2, steps=len(hist) + 1)
     for clause, feat, detail in r.viol:
-        acc.violation('%s/%s%s' % (clause, feat, '/defaults-listed' if wd else ''), detail + '   history: %r' % (hist,),
+        acc.violation('%s/%s%s' % (clause, feat, '/defaults-listed' if wd is True else ''), detail + '   history: %r' % (hist,),
                       dict(part='B', history=[list(e) for e in hist], with_defaults=wd), cost=len(hist) * 10 + (1 if wd else 0))
 
 
@@ -495,7 +498,7 @@ def replay(p):
     hist = tuple(tuple(e) for e in p['history'])
     wd = p.get('with_defaults', False)
     r = RunB(hist, wd)
-    return dict(violations=[dict(signature='%s/%s%s' % (c, f, '/defaults-listed' if wd else ''), what=d + '   history: %r' % (hist,))
+    return dict(violations=[dict(signature='%s/%s%s' % (c, f, '/defaults-listed' if wd is True else ''), what=d + '   history: %r' % (hist,))
                             for c, f, d in r.viol], log=r.log)
 
 
